@@ -194,6 +194,10 @@ macro_rules! generate_method_for_document_type {
         .map_err(Error::VerificationMethodConstructionError)?
         .to_owned();
 
+      // Keep a copy of the document: should the operation have to be reverted, removing the method again would also
+      // strip references to its id that were present before.
+      let document_before_insertion: $t = document.clone();
+
       // Insert method into document and handle error upon failure.
       if let Err(error) = document
         .insert_method(method, scope)
@@ -209,7 +213,7 @@ macro_rules! generate_method_for_document_type {
         .map_err(Error::KeyIdStorageError)
       {
         // Remove the method from the document as it can no longer be used.
-        let _ = document.remove_method(&method_id);
+        *document = document_before_insertion;
         return Err(try_undo_key_generation(storage, &key_id, error).await);
       }
 
@@ -225,14 +229,21 @@ macro_rules! purge_method_for_document_type {
       K: JwkStorage,
       I: KeyIdStorage,
     {
-      let (method, scope) = document.remove_method_and_scope(id).ok_or(Error::MethodNotFound)?;
+      // Removing a method also removes every reference to it. Keep a copy of the document so that reverting restores
+      // those references as well.
+      let document_before_removal: $t = document.clone();
+      let Some((method, _scope)) = document.remove_method_and_scope(id) else {
+        // Nothing to purge, but dangling references to `id` may have been stripped.
+        *document = document_before_removal;
+        return Err(Error::MethodNotFound);
+      };
 
       // Obtain method digest and handle error if this operation fails.
       let method_digest: MethodDigest = match MethodDigest::new(&method).map_err(Error::MethodDigestConstructionError) {
         Ok(digest) => digest,
         Err(error) => {
           // Revert state by reinserting the method before returning the error.
-          let _ = document.insert_method(method, scope);
+          *document = document_before_removal;
           return Err(error);
         }
       };
@@ -245,7 +256,7 @@ macro_rules! purge_method_for_document_type {
         Ok(key_id) => key_id,
         Err(error) => {
           // Reinsert method before returning.
-          let _ = document.insert_method(method, scope);
+          *document = document_before_removal;
           return Err(error);
         }
       };
@@ -285,14 +296,14 @@ macro_rules! purge_method_for_document_type {
             })
           } else {
             // KeyId reinsertion succeeded. Now reinsert method.
-            let _ = document.insert_method(method, scope);
+            *document = document_before_removal;
             Err(Error::KeyStorageError(key_deletion_error))
           }
         }
         (Err(_key_deletion_error), Err(key_id_deletion_error)) => {
           // We assume this means nothing got deleted. Reinsert the method and return one of the errors (perhaps
           // key_id_deletion_error as we really expect the key id storage to work as expected at this point).
-          let _ = document.insert_method(method, scope);
+          *document = document_before_removal;
           Err(Error::KeyIdStorageError(key_id_deletion_error))
         }
       }
